@@ -63,7 +63,19 @@ def payloads(draw):
         ind, typ = draw(_w(3, 9)) + b".example.net", "network.domain"
     pre = draw(S.neutral(1, 3)) + b" "
     suf = b" " + draw(S.neutral(1, 3))
-    return {"kind": k, "text": pre + ind + suf, "ind": [len(pre), len(pre) + len(ind), typ, ind]}
+    # optionally an earlier plain indicator (one the engine keeps as an open context while it reads on): both must be reported
+    lead = draw(st.sampled_from([None, None, "ip", "email", "domain"]))
+    inds = []
+    if lead == "ip":
+        l0, t0 = b"%d.%d.%d.%d" % (draw(st.integers(1, 254)), draw(st.integers(0, 255)), draw(st.integers(0, 255)), draw(st.integers(1, 254))), "network.ip"
+    elif lead == "email":
+        l0, t0 = draw(_w(3, 8)) + b"@" + draw(_w(3, 8)) + b".org", "network.email"
+    elif lead == "domain":
+        l0, t0 = draw(_w(3, 9)) + b".example.net", "network.domain"
+    if lead is not None:
+        inds.append([len(pre), len(pre) + len(l0), t0, l0])
+        pre = pre + l0 + b" " + draw(S.neutral(1, 2)) + b" "
+    return {"kind": k, "text": pre + ind + suf, "ind": [len(pre), len(pre) + len(ind), typ, ind], "more": inds}
 
 
 def cases():
@@ -174,6 +186,11 @@ def check(case) -> Outcome:
             if not found:
                 o.violate("indicator-not-reported-beneath-innermost:" + pay["kind"], {"stack": names, "depth": k, "children": [(c.start, c.end, c.type, c.value[:30]) for c in node.children][:6], "expected": [s + off, e + off, ityp]})
                 ok = False
+            for s2, e2, t2, v2 in pay.get("more", []):
+                o.label("payload:two-indicators")
+                if not [c for c in find_through_contexts(node, (s2 + off, e2 + off)) if c.type == t2 and c.value == v2]:
+                    o.violate("indicator-not-reported-beneath-innermost:earlier-" + t2.split(".")[-1], {"stack": names, "depth": k, "expected": [s2 + off, e2 + off, t2]})
+                    ok = False
         elif node.children and not any(id(c) for c in node.children if c.obfuscation.startswith("cipher.")):
             o.violate("depth-limit:children-beneath-layer-n-with-k=n", {"stack": names, "depth": k})
             ok = False
